@@ -39,7 +39,15 @@ Definition is_at (k : kind) : bool := match k with At => true | _ => false end.
 Definition attach_disciplined (y : gacc) : bool :=
   held_self y "eth.Block" || (is_at (akind (fst y)) && String.eqb (acls (fst y)) "eth.Block.Mutex").
 
+(* what consumers are known to do with cached block data: read it; and, in
+   eth.Tx.Hash, memoise the transaction hash under the transaction's own
+   mutex.  A consumer WRITE anywhere else is not exempt. *)
+Definition is_rd (k : kind) : bool := match k with Rd => true | _ => false end.
+Definition consumer_access (x : gacc) : bool :=
+  is_rd (akind (fst x)) || held_self x "eth.Tx.cacheMut" ||
+  (is_at (akind (fst x)) && String.eqb (acls (fst x)) "eth.Tx.cacheMut").
+
 Definition known_exempt : exemption := fun x y =>
-  block_data_class (acls (fst x)) &&
+  block_data_class (acls (fst x)) && consumer_access x &&
   negb (on_attach_path (fst x)) && negb (held_self x "eth.Block") &&
   on_attach_path (fst y) && attach_disciplined y.
